@@ -426,3 +426,70 @@ def load_index_fallback(crate):
 
     _check_paths(ex, res, outs, per_path)
     return P.finish(ex, res, ["load failed, regenerated", "load ok", "regeneration failed"])
+
+
+def regenerate_pushes_all(crate, N=3):
+    """C03: Blob::try_regenerate_index: when the index is not on disk, EVERY record header the blob scan returned is pushed
+    into the index, in file order, exactly once — nothing is filtered out or reordered on the way, so the rebuilt index
+    answers as the original one did; a push error fails the regeneration; with the index on disk nothing is scanned."""
+    res = P.ObResult("regenerate_pushes_all[N<=%d]" % N)
+    res.functions = ["Blob::try_regenerate_index (async body)", "Blob::raw_records", "IndexStruct::on_disk"]
+    res.bounds = "scan returns None or <= %d headers, every outcome of scan / push" % N
+    n = z3.BitVec("scanned_headers", 64)
+    hs = [P.mk_header(crate, "scan%d" % i) for i in range(N)]
+    some = z3.Bool("scan_found_records")
+
+    def hook(ex_, st_, name, fargs, out_ty, dty):
+        if name.endswith("RawRecords::load"):
+            r = ex_.fresh(out_ty, st_, "scan")
+            opt = Obj("std::option::Option<Vec<record::record::Header>>")
+            opt.discr = Sym(z3.If(some, BV64(1), BV64(0)), "isize")
+            opt.fields[("Some", 0)] = VecV(P.HEADER_TY, N, Sym(n, "usize"), list(hs))
+            r.fields[("Ok", 0)] = opt
+            st_.events.append(("await", name, fargs, r))
+            return [(S.poll_ready(dty, r), None)]
+        return None
+    inl = INLINE_BLOB + [r"^Blob::raw_records$"]
+    fn = crate.method("Blob", "try_regenerate_index")
+    ex = P.mk_executor(crate, cap=N + 1, loop_bound=N + 3, inline=inl)
+    ex.await_hook = hook
+    st = State()
+    st.pc.append(z3.And(z3.ULE(n, BV64(N)), z3.UGE(n, BV64(1))))
+    bref, b = blob_state(crate, ex, st)
+    outs = P.drive_async(ex, st, fn, [bref])
+    res.paths = len(outs)
+
+    def per_path(o, isok, payload):
+        evs = P.events_of(o)
+        scans = [e for e in evs if e[0] == "await" and e[1].endswith("RawRecords::load")]
+        pushes = [e for e in evs if e[0] == "call" and e[1].endswith("IndexTrait>::push")]
+        if not scans:
+            # index on disk (or the scanner could not be created)
+            if not P.prove(ex, res, o, z3.BoolVal(len(pushes) == 0), "nothing is pushed without a scan"):
+                return False
+            P.cover(ex, res, o, isok, "index already on disk: nothing to do")
+            return True
+        s_ok = ex.get_discr(o, scans[0][3]).t == BV64(0)
+        if not P.prove(ex, res, o, z3.Implies(z3.Not(s_ok), z3.And(z3.Not(isok), z3.BoolVal(len(pushes) == 0))), "scan error: returned, nothing pushed"):
+            return False
+        want = z3.If(some, n, BV64(0))
+        oks = [ex.get_discr(o, e[3]).t == BV64(0) for e in pushes]
+        if not P.prove(ex, res, o, z3.Implies(isok, want == BV64(len(pushes))), "Ok => one push per scanned header"):
+            return False
+        for i, e in enumerate(pushes):
+            harg = e[2][2]
+            if not isinstance(harg, Obj):
+                res.status = "inconclusive"; res.detail = "pushed header not modelled"; return False
+            if not P.prove(ex, res, o, P.hdrl(crate, ex, o, harg, "seq") == P.hdr(crate, hs[i], "seq") if i < N else z3.BoolVal(False), "push %d carries scanned header %d (file order)" % (i, i)):
+                return False
+        for i in range(len(pushes) - 1):
+            if not P.prove(ex, res, o, oks[i], "no push after a failed push"):
+                return False
+        if pushes and not P.prove(ex, res, o, z3.Implies(z3.Not(oks[-1]), z3.Not(isok)), "a push error fails the regeneration"):
+            return False
+        P.cover(ex, res, o, z3.And(isok, some, n == BV64(N)), "all scanned headers pushed")
+        P.cover(ex, res, o, z3.And(isok, z3.Not(some)), "empty blob")
+        return True
+
+    _check_paths(ex, res, outs, per_path)
+    return P.finish(ex, res, ["all scanned headers pushed", "empty blob", "index already on disk: nothing to do"])
